@@ -11,7 +11,7 @@ MASK = 0x1fffffffffffff
 
 def make_lines(rng, n, sparse=False):
     if sparse:      # few matches per 100-item chunk, so that per-chunk result caching (<= 20 matches) is exercised
-        voc = ["ab", "abc", "xab", "abx", "cab", "bca", "ba", "xyz", "xxy", "yyx", "zzy", "yzx", "xzz", "zyx", "yxy", "zxz", "xy", "yz", "zx",
+        voc = ["ab", "abc", "xab", "abx", "cab", "bca", "ba", "Ab", "XY", "xyz", "xxy", "yyx", "zzy", "yzx", "xzz", "zyx", "yxy", "zxz", "xy", "yz", "zx",
                "x", "y", "z", "xx", "yy", "zz", "xyx", "yzy", "zxy", "xzy", "yxz"]
         return ["%05d %s %s" % (i, rng.choice(voc), rng.choice(voc[7:])) for i in range(n)]
     return ["%05d %s %s" % (i, rng.choice(WORDS), rng.choice(WORDS)) for i in range(n)]
@@ -37,6 +37,23 @@ def scenario_steps(rng, kind, reloads):
             add("change-query(%s)" % b)
             if rng.random() < 0.3:
                 add("toggle-sort")
+    elif kind == "casekeys":
+        # smart-case: the same letters in another case are another pattern (pattern cache, merger cache, chunk cache keys)
+        seqs = [["ab", "Ab", "AB", "ab", "aB"], ["x", "X", "x"], ["xy", "XY", "Xy", "xy"], ["abc", "ABC", "abc"], ["ba", "Ba", "ba", "bA"]]
+        rng.shuffle(seqs)
+        for seq in seqs[:3]:
+            for q in seq:
+                add("change-query(%s)" % q)
+    elif kind == "narrow-widen":
+        # a narrower query and back: the earlier (cached) answer must still be intact when it is served again
+        for k, base in enumerate(rng.sample(["a", "x", "b", "y", "ab", "xy"], 4)):
+            if k == 1:
+                add("toggle-sort")          # the rest in input order (unsorted result lists are kept by reference)
+            add("change-query(%s)" % base)
+            add("put(%s)" % rng.choice(["b", "y", "c", "z"]))
+            add("backward-delete-char")
+            add("put(%s)" % rng.choice(["a", "x"]))
+            add("backward-delete-char")
     elif kind == "nth-cache":
         # per-chunk result caches must not survive a change of the searched fields
         seqs = [("xy", "3", "xyz"), ("ab", "2", "abc"), ("x", "3", "xz"), ("yz", "2..", "yzx"), ("ab", "3", "ab")]
@@ -204,10 +221,16 @@ def run_session(ctx, fzf, sid, lines, sched, steps, extra_args=(), width=70, hei
                 return False
             return True
         s.wait_for(quiet, timeout=120, what="input end + all actions processed")
+        def loader_idle(tr):
+            # the coordinator saw the end of the input it started last (a reload request that never reached it - finding F21 -
+            # leaves the TERMINAL in reading state with its spinner redrawing for ever, although nothing is being read)
+            reads = [e for e in tr if e["ev"] == "coord.read"]
+            restarts = [e["seq"] for e in tr if e["ev"] == "coord.restart"]
+            return bool(reads) and bool(reads[-1].get("fin")) and not (restarts and restarts[-1] > reads[-1]["seq"])
         t0 = time.time()
         while True:
             try:
-                s.wait_trace_quiet(quiet=0.4, timeout=120)
+                s.wait_trace_quiet(quiet=0.4, timeout=120, ignore=("term.render",))
             except Infra as ex:
                 st = s.get()
                 raise Infra("session %d: %s; state: %s; steps: %s; args: %s" % (
@@ -216,9 +239,10 @@ def run_session(ctx, fzf, sid, lines, sched, steps, extra_args=(), width=70, hei
             st = s.get()
             if st is None:
                 raise Infra("GET / failed at quiescence")
-            n1 = len(s.trace())
-            s.wait_trace_quiet(quiet=0.1, timeout=60)
-            if not st["reading"] and len(s.trace()) == n1:
+            n1 = sum(1 for e in s.trace() if e["ev"] != "term.render")
+            s.wait_trace_quiet(quiet=0.1, timeout=60, ignore=("term.render",))
+            tr_now = s.trace()
+            if (not st["reading"] or (loader_idle(tr_now) and time.time() - t0 > 3)) and sum(1 for e in tr_now if e["ev"] != "term.render") == n1:
                 break           # the (re)loader is done and nothing moved since the state was read
             if time.time() - t0 > 120:
                 raise Infra("session never became quiescent (reading=%s)" % st["reading"])
